@@ -1,22 +1,19 @@
 import GfaModel
 open Gfa Gfa.Driver
 
-partial def loop (h : IO.FS.Stream) (out : IO.FS.Stream) : IO Unit := do
+partial def loop (h : IO.FS.Stream) (out : IO.FS.Stream) (d : DState) : IO Unit := do
   let line ← h.getLine
   if line.isEmpty then return ()
   let l := (line.toList.reverse.dropWhile (· == '\n')).reverse
   let parts := splitOnC US l
-  let reply :=
+  let (d', reply) :=
     match parts with
-    | [] => "bad-op"
-    | cmd :: args =>
-      match pure? (str cmd) (args.map unesc) with
-      | some r => r
-      | none => "bad-op"
+    | [] => (d, "bad-op")
+    | cmd :: args => step d (str cmd) (args.map unesc)
   out.putStrLn (str (esc reply.toList))
-  loop h out
+  loop h out d'
 
 def main : IO Unit := do
   let stdin ← IO.getStdin
   let stdout ← IO.getStdout
-  loop stdin stdout
+  loop stdin stdout {}
